@@ -222,7 +222,7 @@ def prepare_states(tasks, chk):
     for argv in (["run", "//:all"], ["run", "//:all", "--again"], ["run", "//:bad"], ["run", "//:bad"], ["archive", "-o", "arch.tar.gz"]):
         res = rc(argv, s2, ".", tr, chk=chk)
         expect = 1 if argv[1] == "//:bad" else 0
-        if res.code != expect:
+        if (res.code == 0) != (expect == 0) or res.code < 0:
             raise RuntimeError("state preparation: cond %s exited %d: %s" % (" ".join(argv), res.code, res.err[-400:]))
     # the same archive under a name containing ':' (tar takes a RELATIVE name `host:file` for a remote archive; D28)
     shutil.copy(os.path.join(s2, "arch.tar.gz"), os.path.join(s2, "ar:ch.tar.gz"))
